@@ -408,7 +408,9 @@ def explore(ctx):
         cases.append({'shape': list(shape), 'pattern': pat, 'mode': mode, 'layout': lay, 'wn': wq})
         if pat == 'generic' and wq == 'none':
             cases.append({'shape': list(shape), 'pattern': pat, 'mode': mode, 'layout': lay, 'wn': wq, 'intT': True})
-        if ctx.tier == 'thorough' and wq == 'none':
+        if ctx.tier == 'thorough' and wq == 'none' and pat != 'cliff':
+            # (not for 'cliff': a point 1e-9 of the way into a cell whose far node is thirty decades larger is decided by the
+            # last digits of its own cell fraction - ill-conditioned for any implementation, the reference included)
             for variant in range(1, 4 if pat in ('generic', 'wide', 'tiny') else 1):
                 cases.append({'shape': list(shape), 'pattern': pat, 'mode': mode, 'layout': lay, 'wn': wq,
                               'variant': variant, 'fine': True})
